@@ -113,11 +113,13 @@ func Prop(c Case, x *h.Ctx) *h.Violation {
 	}
 	x.Labelf("dcomp=%d", c.DataComp)
 
+	fileHeaderDamaged := false
 	okValue := func(i int, got []byte) bool {
 		if len(vals[i]) == 0 {
 			// empty and nil values carry a zero checksum by format design; they must stay empty where the
-			// record header (which is CRC-protected) fixes the payload length, i.e. without compression
-			return c.DataComp != 0 || len(got) == 0
+			// record header (which is CRC-protected) fixes the payload length: without compression, and as long
+			// as the file header still says "version 4" (older versions have no header checksum and no nil flag)
+			return c.DataComp != 0 || fileHeaderDamaged || len(got) == 0
 		}
 		return bytes.Equal(got, vals[i])
 	}
@@ -167,6 +169,7 @@ func Prop(c Case, x *h.Ctx) *h.Violation {
 		return nil
 	}
 	try := func(desc string, damaged []byte, key string, nt bool) *h.Violation {
+		fileHeaderDamaged = len(damaged) < 8 || !bytes.Equal(damaged[:8], orig[:8])
 		if err := os.WriteFile(dataPath, damaged, 0o644); err != nil {
 			panic(err)
 		}
@@ -238,5 +241,115 @@ func Prop(c Case, x *h.Ctx) *h.Violation {
 	if err := os.WriteFile(dataPath, orig, 0o644); err != nil {
 		panic(err)
 	}
+	return nil
+}
+
+// Multi is the light variant used by the native fuzz target: ONE damaged copy per execution, with several bytes
+// altered anywhere in the data file and/or a truncation (multi-byte damage, which the exhaustive enumeration above
+// does not cover). The oracle is the same: whatever is returned without error for a key with a non-empty value must
+// be the written value.
+type Multi struct {
+	Table   Case  `json:"table"`
+	Damages []Dmg `json:"damages"`
+	Cut     int   `json:"cut,omitempty"` // >0: additionally truncate to Cut % size bytes
+}
+
+type Dmg struct {
+	Pos int  `json:"pos"`
+	Val byte `json:"val"`
+}
+
+func GenMulti() *rapid.Generator[Multi] {
+	return rapid.Custom(func(t *rapid.T) Multi {
+		m := Multi{Table: Gen().Draw(t, "table")}
+		n := rapid.IntRange(1, 6).Draw(t, "ndamage")
+		for i := 0; i < n; i++ {
+			m.Damages = append(m.Damages, Dmg{Pos: rapid.IntRange(0, 1<<16).Draw(t, "pos"), Val: rapid.Byte().Draw(t, "val")})
+		}
+		if rapid.IntRange(0, 3).Draw(t, "cut") == 0 {
+			m.Cut = rapid.IntRange(1, 1<<16).Draw(t, "cutat")
+		}
+		return m
+	})
+}
+
+func PropMulti(m Multi, x *h.Ctx) *h.Violation {
+	c := m.Table
+	dir, done := h.Scratch("c09m")
+	defer done()
+	if err := tbl.Write(dir, c.KVs, tbl.WOpts{DataComp: c.DataComp, WriteBuf: c.WriteBuf, BloomN: 100}); err != nil {
+		return h.V("tabledamage/write-err", "writing table: %v", err)
+	}
+	dataPath := filepath.Join(dir, sstables.DataFileName)
+	orig, err := os.ReadFile(dataPath)
+	if err != nil {
+		panic(err)
+	}
+	buf := append([]byte{}, orig...)
+	desc := ""
+	for _, d := range m.Damages {
+		if len(buf) <= 8 {
+			break
+		}
+		// the 8 file-header bytes are left alone here (the exhaustive enumeration covers them with its replacement
+		// values): turning the version field into 1..3 selects the legacy decoders, which have no header checksum and
+		// allocate whatever a damaged length field says - the process then dies of memory exhaustion, which is not
+		// "a different value returned" but kills the fuzz worker
+		p := 8 + d.Pos%(len(buf)-8)
+		buf[p] = d.Val
+		desc += fmt.Sprintf("byte %d=%02x ", p, d.Val)
+	}
+	if m.Cut > 0 && len(buf) > 0 {
+		buf = buf[:m.Cut%len(buf)]
+		desc += fmt.Sprintf("cut at %d", len(buf))
+	}
+	if bytes.Equal(buf, orig) {
+		return nil
+	}
+	if err := os.WriteFile(dataPath, buf, 0o644); err != nil {
+		panic(err)
+	}
+	fileHeaderDamaged := len(buf) < 8 || !bytes.Equal(buf[:8], orig[:8])
+	okVal := func(got, want []byte) bool {
+		if len(want) == 0 {
+			return c.DataComp != 0 || fileHeaderDamaged || len(got) == 0
+		}
+		return bytes.Equal(got, want)
+	}
+	for _, md := range modes {
+		r, err := tbl.Open(dir, md.ro)
+		if err != nil {
+			continue
+		}
+		for i, kv := range c.KVs {
+			want := kv.V.Bytes()
+			got, err := r.Get(kv.K)
+			if err != nil {
+				continue
+			}
+			if !okVal(got, want) {
+				r.Close()
+				return h.V("tabledamage/multi/"+md.name+"/get", "%s: Get(key #%d %x) returned %s without error, written %s", desc, i, kv.K, show(got), show(want))
+			}
+		}
+		if it, err := r.Scan(); err == nil {
+			for i := 0; ; i++ {
+				k, v, err := it.Next()
+				if err != nil {
+					break
+				}
+				if i >= len(c.KVs) || !bytes.Equal(k, c.KVs[i].K) {
+					r.Close()
+					return h.V("tabledamage/multi/"+md.name+"/scan-keys", "%s: Scan step %d returned key %x", desc, i, k)
+				}
+				if want := c.KVs[i].V.Bytes(); !okVal(v, want) {
+					r.Close()
+					return h.V("tabledamage/multi/"+md.name+"/scan", "%s: Scan returned key %x value %s without error, written %s", desc, k, show(v), show(want))
+				}
+			}
+		}
+		r.Close()
+	}
+	x.NonTrivial()
 	return nil
 }
